@@ -53,9 +53,9 @@ func genServerID(s *Stream) uint32 {
 	return []uint32{1001, 0, 1, 1<<31 - 1, 1 << 31, 1<<32 - 1, uint32(7 + s.N(1<<20))}[s.Weighted(3, 1, 1, 1, 1, 1, 2)]
 }
 
-func cleanAttempt(s *Stream) AttemptPlan {
+func cleanAttempt(s *Stream, pol *Stream) AttemptPlan {
 	p := AttemptPlan{Stop: stopNone}
-	genPolicy(s, &p)
+	genPolicy(pol, &p)
 	if s.Chance(1, 2) {
 		p.Stop = stopEOF
 		p.Stream = StreamPlan{Kind: stopEOF, AtPacket: 1 << 30, ThenFIN: s.Chance(1, 2)}
@@ -85,7 +85,7 @@ func genScenarioC01(t *Tape, thorough bool) *Scenario {
 	h := GenHistory(hs, &o)
 	cs := t.S("cfg")
 	sc := &Scenario{Hist: h, Start: pickStart(cs, h, true), ServerID: genServerID(cs)}
-	sc.Attempts = []AttemptPlan{cleanAttempt(cs)}
+	sc.Attempts = []AttemptPlan{cleanAttempt(cs, t.S("policy"))}
 	return sc
 }
 
@@ -106,7 +106,7 @@ func genScenarioC02(t *Tape, thorough bool, forced []unitKind) *Scenario {
 	}
 	cs := t.S("cfg")
 	sc := &Scenario{Hist: h, Start: pickStart(cs, h, true), ServerID: genServerID(cs)}
-	a := cleanAttempt(cs)
+	a := cleanAttempt(cs, t.S("policy"))
 	if cs.Chance(1, 2) {
 		a.Pacing = 1
 	}
@@ -152,7 +152,7 @@ func genScenarioC03(t *Tape, thorough bool) *Scenario {
 	h := GenHistory(hs, &o)
 	cs := t.S("cfg")
 	sc := &Scenario{Hist: h, Start: pickStart(cs, h, true), ServerID: genServerID(cs)}
-	sc.Attempts = []AttemptPlan{cleanAttempt(cs)}
+	sc.Attempts = []AttemptPlan{cleanAttempt(cs, t.S("policy"))}
 	return sc
 }
 
@@ -174,7 +174,7 @@ func genScenarioC08(t *Tape, thorough bool) *Scenario {
 	}
 	h := GenHistory(hs, &o)
 	sc := &Scenario{Hist: h, Start: pickStart(cs, h, true), ServerID: 1001}
-	a := cleanAttempt(cs)
+	a := cleanAttempt(cs, t.S("policy"))
 	a.Pacing = cs.Weighted(3, 1, 2) // mostly far ahead: later packets arrive while the handler holds earlier ones
 	sc.Attempts = []AttemptPlan{a}
 	return sc
@@ -199,10 +199,10 @@ func genScenarioC15(t *Tape, thorough bool) *Scenario {
 		if cs.Chance(1, 3) {
 			p.Stop = stopMapperErr
 		}
-		genPolicy(cs, &p)
+		genPolicy(t.S("policy"), &p)
 		sc.Attempts = append(sc.Attempts, p)
 	}
-	sc.Attempts = append(sc.Attempts, cleanAttempt(cs))
+	sc.Attempts = append(sc.Attempts, cleanAttempt(cs, t.S("policy")))
 	return sc
 }
 
@@ -287,7 +287,7 @@ var faultKinds = []stopKind{stopFIN, stopRST, stopShortPacket, stopBadSeq, stopE
 	stopHandlerErr, stopMapperErr, stopMapperMiscount, stopUnsupportedEvent, stopInvalidEvent}
 
 var connFaultKinds = []stopKind{stopDialErr, stopHandshakeFIN, stopHandshakeGarbage, stopAuthErr, stopSetErr,
-	stopDumpWriteErr, stopCancelInHandshake}
+	stopDumpWriteErr, stopCancelInHandshake, stopCancelAtDial}
 
 // fillFault completes a fault attempt of the given kind with tape-drawn details.
 func fillFault(s *Stream, h *History, kind stopKind, at int, p *AttemptPlan) {
@@ -377,7 +377,7 @@ func genFaultScenario(t *Tape, o *GenOpts, em faultEmphasis) *Scenario {
 	}
 	for i := 0; i < nf; i++ {
 		var p AttemptPlan
-		genPolicy(cs, &p)
+		genPolicy(t.S("policy"), &p)
 		if em.ConnPhase > 0 && fs.Chance(1, em.ConnPhase) {
 			fillFault(fs, h, connFaultKinds[fs.N(len(connFaultKinds))], 0, &p)
 		} else {
@@ -399,7 +399,7 @@ func genFaultScenario(t *Tape, o *GenOpts, em faultEmphasis) *Scenario {
 		}
 		sc.Attempts = append(sc.Attempts, p)
 	}
-	sc.Attempts = append(sc.Attempts, cleanAttempt(cs))
+	sc.Attempts = append(sc.Attempts, cleanAttempt(cs, t.S("policy")))
 	return sc
 }
 
